@@ -627,6 +627,7 @@ func nilnessOn(fn *ssa.Function, v ssa.Value, pred *ssa.BasicBlock) int {
 }
 
 func threadContinuation(F *ssa.Function, K *ssa.BasicBlock) {
+	absorbPhiOnlyPreds(F, K)
 	n := len(K.Instrs)
 	if n == 0 || len(K.Succs) != 2 || K.Succs[0] == K.Succs[1] {
 		return
@@ -739,7 +740,22 @@ func threadContinuation(F *ssa.Function, K *ssa.BasicBlock) {
 			S = K.Succs[0]
 		}
 		P := K.Preds[i]
-		if len(P.Succs) != 1 || P == K {
+		toK := 0
+		for _, s := range P.Succs {
+			if s == K {
+				toK++
+			}
+		}
+		if toK != 1 || P == K || P == S {
+			continue
+		}
+		dupPred := false
+		for _, q := range S.Preds {
+			if q == P {
+				dupPred = true // P already leads to S by its other edge: a second edge would need two phi slots for one predecessor
+			}
+		}
+		if dupPred {
 			continue
 		}
 		kpos := -1
@@ -812,7 +828,11 @@ func threadContinuation(F *ssa.Function, K *ssa.BasicBlock) {
 			S.Instrs = append(newPhis, S.Instrs...)
 		}
 		// the new edge P → S
-		P.Succs[0] = S
+		for j, s := range P.Succs {
+			if s == K {
+				P.Succs[j] = S
+			}
+		}
 		S.Preds = append(S.Preds, P)
 		for _, in := range S.Instrs {
 			sp, ok := in.(*ssa.Phi)
@@ -985,4 +1005,140 @@ func fuseBlocks(F *ssa.Function) {
 		}
 	}
 	delete(domCache, F)
+}
+
+// absorbPhiOnlyPreds: a predecessor of K that consists of phis and a jump to K
+// (the value form of `return a && b`), whose phis only feed K's phis, is
+// replaced by its own predecessors, so that each of them can be threaded by
+// what it contributes.
+func absorbPhiOnlyPreds(F *ssa.Function, K *ssa.BasicBlock) {
+	for again := true; again; {
+		again = false
+		for i, P := range K.Preds {
+			if P == K || len(P.Succs) != 1 || len(P.Preds) < 2 {
+				continue
+			}
+			ok := true
+			var pphis []*ssa.Phi
+			for j, in := range P.Instrs {
+				switch x := in.(type) {
+				case *ssa.Phi:
+					pphis = append(pphis, x)
+				case *ssa.Jump:
+					if j != len(P.Instrs)-1 {
+						ok = false
+					}
+				default:
+					ok = false
+				}
+			}
+			if !ok || len(pphis) == 0 {
+				continue
+			}
+			// K must not have P twice, and P's preds must not already be preds of K
+			cnt := 0
+			for _, q := range K.Preds {
+				if q == P {
+					cnt++
+				}
+			}
+			if cnt != 1 {
+				continue
+			}
+			clash := false
+			for _, pp := range P.Preds {
+				if len(pp.Succs) != 1 && false {
+					clash = true
+				}
+				for _, q := range K.Preds {
+					if q == pp {
+						clash = true
+					}
+				}
+				if pp == P {
+					clash = true
+				}
+			}
+			if clash {
+				continue
+			}
+			var kphis []*ssa.Phi
+			for _, in := range K.Instrs {
+				ph, isPhi := in.(*ssa.Phi)
+				if !isPhi {
+					break
+				}
+				kphis = append(kphis, ph)
+			}
+			for _, pp := range pphis {
+				if r := pp.Referrers(); r != nil {
+					for _, u := range *r {
+						up, isPhi := u.(*ssa.Phi)
+						if !isPhi || up.Block() != K {
+							ok = false
+						}
+					}
+				}
+			}
+			if !ok {
+				continue
+			}
+			// rewrite
+			for _, kp := range kphis {
+				v := kp.Edges[i]
+				var add []ssa.Value
+				var from *ssa.Phi
+				for _, pp := range pphis {
+					if ssa.Value(pp) == v {
+						from = pp
+					}
+				}
+				for j := range P.Preds {
+					if from != nil {
+						add = append(add, from.Edges[j])
+					} else {
+						add = append(add, v)
+					}
+				}
+				removeReferrer(v, kp)
+				kp.Edges = append(kp.Edges[:i:i], append(add, kp.Edges[i+1:]...)...)
+				for _, e := range kp.Edges {
+					removeReferrer(e, kp)
+				}
+				for _, e := range kp.Edges {
+					removeReferrer(e, kp)
+					addReferrer(e, kp)
+				}
+			}
+			newPreds := append([]*ssa.BasicBlock(nil), K.Preds[:i]...)
+			newPreds = append(newPreds, P.Preds...)
+			newPreds = append(newPreds, K.Preds[i+1:]...)
+			K.Preds = newPreds
+			for _, pp := range P.Preds {
+				for j, s := range pp.Succs {
+					if s == P {
+						pp.Succs[j] = K
+					}
+				}
+			}
+			for _, pp := range pphis {
+				for _, e := range pp.Edges {
+					removeReferrer(e, pp)
+				}
+			}
+			out := F.Blocks[:0]
+			for _, b := range F.Blocks {
+				if b != P {
+					out = append(out, b)
+				}
+			}
+			F.Blocks = out
+			for idx, b := range F.Blocks {
+				b.Index = idx
+			}
+			delete(domCache, F)
+			again = true
+			break
+		}
+	}
 }
